@@ -1,8 +1,16 @@
 import IrVerif.Props.C04
-open IrVerif.Pack
-#print axioms C04_unpack_pack4
-#print axioms C04_unpack_pack2
-#print axioms C04_pack4_len
-#print axioms C04_pack2_len
-#print axioms C04_le_roundtrip
-#print axioms C04_nbytes
+#print axioms IrVerif.Pack.C04_unpack_pack4
+#print axioms IrVerif.Pack.C04_unpack_pack2
+#print axioms IrVerif.Pack.C04_pack4_len
+#print axioms IrVerif.Pack.C04_pack2_len
+#print axioms IrVerif.Pack.C04_pack_unpack4
+#print axioms IrVerif.Pack.C04_pack_unpack2
+#print axioms IrVerif.Pack.C04_le_roundtrip
+#print axioms IrVerif.Pack.C04_nbytes
+#print axioms IrVerif.TensorRepr.C04_tables
+#print axioms IrVerif.TensorRepr.C04_field_agree
+#print axioms IrVerif.TensorRepr.C04_all_agree
+#print axioms IrVerif.TensorRepr.C04_bytes_len
+#print axioms IrVerif.TensorRepr.C04_tofile_at
+#print axioms IrVerif.TensorRepr.C04_tofile_repr
+#print axioms IrVerif.TensorRepr.C04_serialize_roundtrip
